@@ -68,10 +68,20 @@ let num_of_string (s : string) : number =
 
 let flags_str (fl : n list) : string = String.concat "," (List.map dec_of_n fl)
 
+(* The extracted model recomputes hashes of whole trees at every container comparison (the library caches
+   them), so that a case with very large intermediate sets can take minutes.  Such a case is abandoned after
+   CPU_LIMIT seconds ("FAIL timeout", counted by the check as not compared): a GC alarm raises an exception
+   at the end of a major collection once the deadline has passed. *)
+exception Timeout
+let cpu_limit = 20.0
+let deadline = ref infinity
+let _ = Gc.create_alarm (fun () -> if Sys.time () > !deadline then (deadline := infinity; raise Timeout))
+
 let () =
   try
     while true do
       let line = input_line stdin in
+      deadline := Sys.time () +. cpu_limit;
       (try
         let f = String.split_on_char '\t' line in
         let op = List.nth f 0 in
@@ -119,6 +129,9 @@ let () =
       | Unsupported m -> print_endline ("UNSUPPORTED " ^ m)
       | Failure m -> print_endline ("FAIL " ^ m)
       | Invalid_argument m -> print_endline ("FAIL " ^ m)
-      | Not_found -> print_endline "FAIL notfound")
+      | Not_found -> print_endline "FAIL notfound"
+      | Timeout -> print_endline "FAIL timeout"
+      | Stack_overflow -> print_endline "FAIL stack_overflow"
+      | Out_of_memory -> print_endline "FAIL out_of_memory")
     done
   with End_of_file -> ()
